@@ -50,6 +50,27 @@ def core_callee_ok(c, name):
     return True
 
 
+_PLAIN = ("usize", "isize", "u8", "u16", "u32", "u64", "u128", "i8", "i16", "i32", "i64", "i128", "bool", "char", "f32", "f64", "()")
+
+
+def _closure_without_drop(b, local):
+    """The local holds a closure built in this function whose captures are plain values, references or raw pointers:
+    dropping it runs no code."""
+    from lib.inline import _closure_def
+    cdef = _closure_def(b.blocks, local)
+    if not cdef:
+        return False
+    for bi, si, s in b.stmts(live_only=False):
+        rv = s.get("rv") or {}
+        if s["k"] == "assign" and rv.get("k") == "agg" and rv.get("ak") == "closure" and norm(rv["def"]) == cdef:
+            for o in rv["ops"]:
+                ty = (o.get("p") or o.get("c") or {}).get("ty") or ""
+                if not (ty in _PLAIN or ty.startswith(("&", "*const ", "*mut "))):
+                    return False
+            return True
+    return False
+
+
 def methods(prog, crate):
     return {m: prog.body(IMPL + m, crate) for m in METHODS}
 
@@ -122,17 +143,24 @@ def run(ctx, prog, crate):
     roots = [ms[m] for m in present]
     bodies, ext, indirect = prog.callee_closure(roots, crate=crate)
     n = 0
+    from lib import inline as _inl
+    absorbed = getattr(prog, "_absorbed", ())
     for b in bodies:
         ctx.saw(b)
         # every divan function the hooks reach is held to the same standard below (no drops, no panic edges, only
         # non-allocating callees): which helpers exist, and what they are called, is free
         ctx.ok("R09.2", "local|" + b.path)
         n += 1
+        if (b.crate, b.path) in absorbed:
+            continue    # a helper that only exists as copies inside the hooks: examined there, with the hooks' own arguments
         for i in sorted(b.live):
             t = b.term(i)
-            if b.inlined_from(i):
+            src_ = b.inlined_from(i)
+            if src_ and (b.crate, src_) not in absorbed:
                 continue    # a copy of a helper's block: examined in the helper's own body
             if t["k"] == "drop":
+                if src_ and not t["p"]["proj"] and _closure_without_drop(b, t["p"]["l"]):
+                    continue    # the helper's `impl FnOnce` parameter: here a closure that owns nothing but plain values
                 ctx.fail("R09.2", ["drop-in-allocator-hook", b.path, t["ty"]],
                          "a value of type `%s` is dropped inside an allocator hook" % t["ty"], b.where(i))
             if t["k"] == "assert" and t["kind"] not in ("Overflow", "BoundsCheck"):
@@ -145,6 +173,8 @@ def run(ctx, prog, crate):
                   "allocator hooks call `%s` (crate %s), which is neither a non-panicking `core` function nor on the non-allocating allow-list" % (name, getattr(c, "ck", "?")), c.line())
         n += 1
     for c in indirect:
+        if (c.body.crate, c.body.path) in absorbed:
+            continue    # the helper's call of its callable parameter: spliced into the hooks together with the closure given
         ctx.fail("R09.2", ["indirect-call", c.body.path, c.name], "indirect call inside an allocator hook", c.line())
     ctx.anchor("R09.2", "callees reachable from the allocator hooks", n, 6)
     # the one bounds check indexes [T; 4] with a 4-variant enum (see R10.2 table agreement)
